@@ -7,6 +7,7 @@ import someip.sd as SD
 from contracts import looplib as LL
 from contracts import spec_config as SCFG
 from contracts import spec_sd as SS
+from contracts import c05 as C05
 
 FUNCTIONS = [
     "someip.sd.ServiceDiscover.send_find_services",
@@ -147,5 +148,5 @@ def ob_discover_start(vc):
     vc.check_eq(len(sent), 0, "discover.start.sends_nothing_itself")
 
 
-HARNESSES = [SCFG.ob_create_find_entry_refines, SCFG.ob_matches_service_refines, ob_service_found, ob_send_find_services, ob_discover_start]
+HARNESSES = [SCFG.ob_create_find_entry_refines, SCFG.ob_matches_service_refines, ob_service_found, ob_send_find_services, ob_discover_start, C05.ob_handle_offer, C05.ob_expiry]
 EXPECT_COVERS = {"ob_send_find_services": ["nothing-watched", "all-found", "all-rounds"]}
